@@ -316,15 +316,18 @@ __CPROVER_ensures(IMPLIES(!PS_GA_IN(g_ps_dlo, g_ps_w0r), g_ps_cell == __CPROVER_
 __CPROVER_ensures(IMPLIES(!g_ps_fault, PS_FIELD(store) == PS_FINAL(store)))
 ;
 
-/* fill [address, address+k) (inside the region) with item, chunked through the
- * auxiliary buffer; nothing else changes */
+/* fill [address, address+k) with item, chunked through the auxiliary buffer
+ * (none, or any size); nothing else changes */
 #define PS_WN_OCTET(f, i, address, k, item) \
   ((g_ps_lo + (i) < g_ps_dlo && PM_IN(g_ps_lo + (i), (address), (k))) \
     ? ((f) == (item) || (g_ps_fault && (f) == __CPROVER_old(f))) \
     : (f) == __CPROVER_old(f))
 static PersistentAccess persistent_writen(PersistentStorage *store, uint32_t address, unsigned char item, size_t k)
 __CPROVER_requires(PS_OK(store))
-__CPROVER_requires((uint64_t)address >= g_ps_lo && (uint64_t)address <= g_ps_hi && (uint64_t)k <= g_ps_hi - (uint64_t)address)
+/* helper precondition from its two call sites (persistent_reset): the whole
+ * checksum field or the whole data area */
+__CPROVER_requires(((uint64_t)address == g_ps_lo && (uint64_t)k == g_ps_dlo - g_ps_lo)
+    || ((uint64_t)address == g_ps_dlo && (uint64_t)k == g_ps_hi - g_ps_dlo))
 __CPROVER_assigns(g_ps_fault, PS_WLOG,
                   g_ps_cell, g_ps_f0, g_ps_f1, g_ps_f2, g_ps_f3;
     store->buffer.data != NULL && store->buffer.size > 0: PS_BUF_ASSIGN(store))
